@@ -550,33 +550,35 @@ theorem addRange_never_panics (ps : PartSet) (hlen : (ps.parts.length : Int) = p
     · simp
     · split
       · simp
-      · rename_i h1 h2 h3
-        simp only []
-        generalize (match ps.names.findIdx? (· == name) with
-          | some i => (ps.names, (i : Int)) | none => (ps.names ++ [name], (ps.names.length : Int))).2 = idx
-        -- loop invariant: 0 ≤ i and the table keeps its length
-        have key : ∀ (fuel : Nat) (i : Int) (parts : List Int), 0 ≤ i → (parts.length : Int) = ps.length →
-            (addRangeLoop idx stop modulo fuel i parts).2 ≠ .panic := by
-          intro fuel
-          induction fuel with
-          | zero => intro i parts _ _; simp [addRangeLoop]
-          | succ f ih =>
-            intro i parts hi hp
-            simp only [addRangeLoop]
-            split
-            · simp
-            · rename_i hgt
-              have hlt : i.toNat < parts.length := by omega
-              rw [List.getElem?_eq_getElem hlt]
-              simp only []
+      · split
+        · simp
+        · rename_i h1 h2 h3 h4
+          simp only []
+          generalize (match ps.names.findIdx?   (· == name) with
+            | some i => (ps.names, (i : Int)) | none => (ps.names ++ [name], (ps.names.length : Int))).2 = idx
+          -- loop invariant: 0 ≤ i and the table keeps its length
+          have key : ∀ (fuel : Nat) (i : Int) (parts : List Int), 0 ≤ i → (parts.length : Int) = ps.length →
+              (addRangeLoop idx stop modulo fuel i parts).2 ≠ .panic := by
+            intro fuel
+            induction fuel with
+            | zero => intro i parts _ _; simp [addRangeLoop]
+            | succ f ih =>
+              intro i parts hi hp
+              simp only [addRangeLoop]
               split
               · simp
-              · split
+              · rename_i hgt
+                have hlt : i.toNat < parts.length := by omega
+                rw [List.getElem?_eq_getElem hlt]
+                simp only []
+                split
                 · simp
-                · apply ih
-                  · omega
-                  · simp [hp]
-        exact key _ _ _ (by omega) hlen
+                · split
+                  · simp
+                  · apply ih
+                    · omega
+                    · simp [hp]
+          exact key _ _ _ (by omega) hlen
 
 /-! ## non-vacuity -/
 
